@@ -45,7 +45,9 @@ with ThreadPoolExecutor(max_workers=jobs) as ex:
             m["id"], m["breaks_property"], caught, "" if caught else "   <-- MISSED",
             "" if own or not caught else "   (not by its own property)"), flush=True)
         record[m["id"]] = {"caught_by": caught, "checks_run": info, "tier": tier}
-        if not caught:
+        if not caught and m.get("known_residual"):
+            print("           (known residual: %s)" % m["known_residual"][:100])
+        elif not caught:
             missed.append(m["id"])
 with open(RECORD, "w") as fh:
     json.dump(record, fh, indent=1, sort_keys=True)
